@@ -128,6 +128,8 @@ func (f *TLSFarm) ServerCert(identity, ip string) tls.Certificate {
 		spec.Issuer, spec.IssuerKey = f.cas["caB"], caKeys["caB"]
 	case "caA2":
 		spec.Issuer, spec.IssuerKey = f.cas["caA2"], caKeys["caA2"]
+	case "dns-localhost": // issued by CA A for the DNS name localhost only (no IP SAN)
+		spec.Issuer, spec.IssuerKey = f.cas["caA"], caKeys["caA"]
 	case "foreign":
 		spec.Issuer, spec.IssuerKey = f.cas["caForeign"], caKeys["caForeign"]
 	case "clientsca": // issued by the CA that issues the RA's CLIENT certificate (never a configured server CA)
@@ -155,6 +157,9 @@ func (f *TLSFarm) ServerCert(identity, ip string) tls.Certificate {
 	spec.Mutate = func(t *x509.Certificate) {
 		t.IPAddresses = []net.IP{san}
 		t.DNSNames = []string{"crypki.example.com"}
+		if identity == "dns-localhost" {
+			t.IPAddresses, t.DNSNames = nil, []string{"localhost"}
+		}
 		t.ExtKeyUsage = []x509.ExtKeyUsage{x509.ExtKeyUsageServerAuth}
 	}
 	_, der, err := MakeCert(spec)
@@ -186,6 +191,8 @@ type CAServerSpec struct {
 	// (1-based) a certificate whose text line is longer than 64 KiB (a padded extension).
 	ReplyCerts int
 	BigAt      int
+	// ErrText: the status message of an rpcerr answer ("" = a harness text); "%d" is replaced by the request's validity
+	ErrText string
 	// BigPad: size of the padding extension of the big certificate in bytes (0 = 50 KiB)
 	BigPad int
 }
@@ -250,7 +257,11 @@ func (s *CAServer) PostUserSSHCertificate(ctx context.Context, req *pb.SSHCertif
 	}
 	switch behaviour {
 	case "rpcerr":
-		return nil, status.Error(codes.Code(code), "verif: scripted failure")
+		msg := "verif: scripted failure"
+		if s.Spec.ErrText != "" {
+			msg = strings.ReplaceAll(s.Spec.ErrText, "%d", fmt.Sprint(req.Validity))
+		}
+		return nil, status.Error(codes.Code(code), msg)
 	case "empty":
 		return &pb.SSHKey{Key: ""}, nil
 	case "unparsable":
@@ -389,9 +400,16 @@ func StartCAGroup(specs []CAServerSpec) (*CAGroup, error) {
 func (g *CAGroup) startServer(s *CAServer) error {
 	f := Farm()
 	sp := s.Spec
-	ln, err := net.Listen("tcp", fmt.Sprintf("%s:%d", sp.IP, g.Port))
-	if err != nil {
-		return err
+	var ln net.Listener
+	if sp.IP == "127.0.0.1" && g.reserve != nil {
+		// the address the port was probed (and is reserved) on: the reservation listener serves it
+		ln = g.reserve
+	} else {
+		var err error
+		ln, err = net.Listen("tcp", net.JoinHostPort(sp.IP, fmt.Sprint(g.Port)))
+		if err != nil {
+			return err
+		}
 	}
 	s.ln = ln
 	id := sp.Identity
